@@ -115,6 +115,16 @@ CLAIMED = {
             "scaled reads of the last scaler, all windows, both chunk streams, truncation to complete rows.",
             "Trusted: TLC, encoder's DAQmx index encoding, independent fixed-width decode at computed positions.",
             "DESIGN.md 3.8, 5/C11"),
+    "C12": ("TLA+ TdmsTime/BigNat (exact rational time in limb arithmetic): conversions recorded from the real code are "
+            "validated by TLC against Trace_Time.tla; Apalache discharges the fraction lemmas over true 64-bit constants",
+            "Code->spec trace validation of every recorded conversion: written (seconds, fractions) denote the "
+            "microsecond and read back identically (1/16 stratified + fragile neighbours in quick, all 10^6 x 4 "
+            "seconds in thorough), scalar = array, within one unit of the exact floor, monotone along sorted "
+            "(seconds, fractions) incl. unit-boundary neighbours, raw timestamps bit-exact through write/read/"
+            "defragment, time_track for dyadic offsets.",
+            "Trusted: TLC, Apalache, BigNat arithmetic, the harness's biasing of signed quantities; time_track for "
+            "non-dyadic floats is not covered.",
+            "DESIGN.md 3.10, 5/C12"),
     "C15": ("TLA+ TdmsSegments: byte order is an attribute of the encoding only; TLC enumerates per-segment byte-order "
             "assignments, each file replayed in 4 byte-order variants against the one specification view",
             "Model checking + spec->code conformance: all 2^k per-segment byte-order assignments (k<=2) over "
